@@ -157,6 +157,14 @@ func (c *runCtx) craftedStates(r *c19Repo) []craftState {
 			point(root, putObject(root, "commit", commitBody(t, []string{parent}, "crafted tree")))
 		})
 	}
+	add("treebomb.two-to-the-35", func(root string) {
+		// 36 small, perfectly valid tree objects: every level lists the level below twice (2^35 directories in all)
+		t := putObject(root, "tree", treeBody(tent{"100644", "f", blob}))
+		for i := 0; i < 35; i++ {
+			t = putObject(root, "tree", treeBody(tent{"040000", "a", t}, tent{"040000", "b", t}))
+		}
+		point(root, putObject(root, "commit", commitBody(t, []string{parent}, "bomb")))
+	})
 	add("tree.deep-chain", func(root string) {
 		t := putObject(root, "tree", treeBody(tent{"100644", "f", blob}))
 		for i := 0; i < 300; i++ {
